@@ -6,6 +6,7 @@ EXTENDS Stencil, TLC
 CONSTANTS MaxN, Vals
 
 Fills == {0, 3}
+ValsWithNegative == {-1, 0, 2}        \* a configuration file cannot spell a negative number: Vals <- ValsWithNegative
 Shifts == {<<f, t>> \in PosWords \X PosWords : ValidShift(f, t)}
 
 VARIABLES a, s1, s2, r1, r2, f1, f2, phase, ab, ba
